@@ -124,7 +124,19 @@ impl<'a> Ps<'a> {
 }
 
 // ---- running the real code
+thread_local! { static NEEDLES: std::cell::RefCell<Vec<(String, String)>> = std::cell::RefCell::new(Vec::new()); }
+
+/// error kind behind a panic message: first by the literal fragments of LayoutError's Display arms
+/// that the translator read from the current source (`--needles FILE`, lines `KIND<TAB>fragment`),
+/// then by the fragments of the source as it was when this harness was written
 fn classify_panic(msg: &str) -> &'static str {
+    let hit = NEEDLES.with(|n| n.borrow().iter().find(|(_, f)| msg.contains(f.as_str())).map(|(k, _)| k.clone()));
+    match hit.as_deref() {
+        Some("ODiagSelf") | Some("ODiagCycle") => return "ODiag",
+        Some("OUnresolved") => return "OUnresolved",
+        Some("OTooLarge") => return "OTooLarge",
+        _ => {}
+    }
     if msg.contains("has infinite size") || msg.contains("recursive struct cycle") { "ODiag" }
     else if msg.contains("referenced before its layout is computed") { "OUnresolved" }
     else if msg.contains("is too large") { "OTooLarge" }
@@ -142,9 +154,9 @@ fn run_compute(p: &Prog) -> String {
         span: None,
     }).collect();
     let mut prog = AirProgram { functions: vec![], structs, globals: vec![], source_files: vec![], mono_instances: vec![] };
-    let r = guarded(std::panic::AssertUnwindSafe(|| { compute_layouts(&mut prog); prog }));
+    let r = guarded(std::panic::AssertUnwindSafe(|| { compute_layouts(&mut prog); }));
     match r {
-        Ok(prog) => {
+        Ok(()) => {
             let ss: Vec<String> = prog.structs.iter().map(|s| {
                 if s.fields.iter().any(|f| f.offset.is_none()) { "None".to_string() } else {
                     let o: Vec<String> = s.fields.iter().map(|f| f.offset.unwrap().to_string()).collect();
@@ -153,16 +165,71 @@ fn run_compute(p: &Prog) -> String {
             }).collect();
             format!("OLaid [{}]", ss.join("; "))
         }
-        Err(m) => classify_panic(&m).to_string(),
+        Err(m) => {
+            // "diagnosed rather than laid out": a rejected program must not carry any offset
+            if prog.structs.iter().any(|s| s.fields.iter().any(|f| f.offset.is_some())) { return "ODirty".to_string(); }
+            let k = NEEDLES.with(|n| n.borrow().iter().find(|(_, f)| m.contains(f.as_str())).map(|(k, _)| k.clone())).unwrap_or_default();
+            DIAG_DETAIL.with(|d| *d.borrow_mut() = if k == "ODiagSelf" || m.contains("has infinite size") { "selfref" } else if k == "ODiagCycle" || m.contains("recursive struct cycle") { "cycle" } else { "" });
+            classify_panic(&m).to_string()
+        }
     }
 }
+
+thread_local! { static DIAG_DETAIL: std::cell::RefCell<&'static str> = std::cell::RefCell::new(""); }
 
 fn overflow_checks_on() -> bool {
     guarded(|| { let x: u32 = std::hint::black_box(u32::MAX); std::hint::black_box(x + std::hint::black_box(1)) }).is_err()
 }
 
 fn emit(_chk: bool, p: &Prog, class: &str) {
-    println!("QCompute {}\t{}\t{}\t{}", coq_prog(p), run_compute(p), compact_prog(p), class);
+    DIAG_DETAIL.with(|d| *d.borrow_mut() = "");
+    let o = run_compute(p);
+    let detail = DIAG_DETAIL.with(|d| *d.borrow());
+    // 5th column: which recursion diagnostic (audit only; the contract is "diagnosed")
+    println!("QCompute {}\t{}\t{}\t{}\t{}", coq_prog(p), o, compact_prog(p), class, detail);
+}
+
+const GRID_TYPES: [&str; 17] = ["I8", "I16", "I32", "I64", "U8", "U16", "U32", "U64", "F32", "F64", "Bool", "Str", "FnPtr", "Param", "Void", "PTR", "SLICE"];
+fn grid_ty(name: &str) -> T {
+    match name {
+        "PTR" => T::Ptr(Box::new(T::Struct(1))),
+        "SLICE" => T::Slice(Box::new(T::P("U16"))),
+        p => T::P(SCALARS.iter().chain(["Str", "FnPtr", "Param", "Void"].iter()).find(|x| **x == p).copied().unwrap()),
+    }
+}
+
+/// deterministic, complete small grids: every ordered pair of field types, align_to on every
+/// residue for every alignment, array stride for every element type, nested tail padding in three
+/// declaration orders.  Every program carries its sizeof/alignof probes.
+fn grids(chk: bool) {
+    for a in GRID_TYPES { for b in GRID_TYPES {
+        emit(chk, &probes(&vec![(1, vec![grid_ty(a), grid_ty(b)])]), "grid-pairs");
+    }}
+    for t in ["U8", "U16", "U32", "U64", "F32", "F64", "Str", "PTR", "SLICE"] { for o in 0..=17u64 {
+        emit(chk, &probes(&vec![(1, vec![T::Arr(Box::new(T::P("U8")), o), grid_ty(t)])]), "grid-align");
+    }}
+    for t in GRID_TYPES { for n in [0u64, 1, 2, 3, 5] {
+        emit(chk, &probes(&vec![(1, vec![T::P("U8"), T::Arr(Box::new(grid_ty(t)), n), T::P("U8")])]), "grid-array");
+    }}
+    // arrays of structs whose size includes tail padding; three levels of nesting; each in three orders
+    let inners: Vec<Vec<T>> = vec![
+        vec![T::P("I64"), T::P("U8")], vec![T::P("I32"), T::P("U8")], vec![T::P("I16"), T::P("U8")], vec![T::P("U8")], vec![],
+        vec![T::P("U8"), T::P("F64"), T::P("U8")], vec![T::P("Str"), T::P("Bool")], vec![T::Slice(Box::new(T::P("U8"))), T::P("I16")],
+    ];
+    for inner in inners { for n in [1u64, 2, 3] {
+        let base: Prog = vec![
+            (1, inner.clone()),
+            (2, vec![T::P("U8"), T::Struct(1), T::P("U8")]),
+            (3, vec![T::P("U8"), T::Arr(Box::new(T::Struct(1)), n), T::P("U16"), T::Arr(Box::new(T::Arr(Box::new(T::Struct(2)), 2)), n), T::P("U8")]),
+            (4, vec![T::Struct(3), T::P("U8"), T::Struct(2), T::Ptr(Box::new(T::Struct(4)))]),
+        ];
+        let pr = probes(&base);
+        emit(chk, &pr, "grid-nested");
+        let mut rev = pr.clone(); rev.reverse();
+        emit(chk, &rev, "grid-nested");
+        let mut rot = pr.clone(); rot.rotate_left(5);
+        emit(chk, &rot, "grid-nested");
+    }}
 }
 
 // ---- generators
@@ -245,6 +312,11 @@ fn main() {
     let cases = arg_u64("--cases", 300);
     let chk = overflow_checks_on();
     println!("#profile overflow_checks={}", chk);
+    if let Some(f) = arg("--needles") {
+        if let Ok(txt) = std::fs::read_to_string(&f) {
+            NEEDLES.with(|n| *n.borrow_mut() = txt.lines().filter_map(|l| l.split_once('\t')).map(|(k, v)| (k.to_string(), v.to_string())).filter(|(_, v)| v.len() >= 6).collect());
+        }
+    }
 
     if flag("--api-probe") {
         // how malformed struct definitions surface through the public driver API: must be an error value
@@ -277,6 +349,8 @@ fn main() {
         }
     }
 
+    if !flag("--no-grids") && arg("--corpus").is_none() { grids(chk); }
+
     let mut rng = Rng::new(seed.wrapping_mul(0x1000193) ^ 0xC18);
     // layout_of on its own (the table + arrays + the Struct panic)
     for p in ["I8", "I16", "I32", "I64", "U8", "U16", "U32", "U64", "F32", "F64", "Bool", "Str", "FnPtr", "Param", "Void"] {
@@ -288,6 +362,7 @@ fn main() {
         let names = [1u64, 2, 3];
         let with_structs = rng.chance(1, 6);
         let mut t = gen_ty(&mut rng, if with_structs { &names } else { &[] }, &names, 0);
+        if rng.chance(1, 2) { t = T::Arr(Box::new(t), rng.below(6)); }
         if rng.chance(1, 10) { t = T::Arr(Box::new(t), *rng.pick(&[1u64 << 29, 1 << 30, 1 << 31, 1 << 32, (1 << 32) + 1, 4294967295, 1 << 33])); }
         let o = match guarded(|| layout_of(&to_air(&t))) { Ok(l) => format!("OSizeAlign {} {}", l.size, l.align), Err(m) => classify_panic(&m).to_string() };
         println!("QLayoutOf ({})\t{}\tT:{}\tlayout_of", coq_ty(&t), o, compact_ty(&t));
@@ -296,7 +371,7 @@ fn main() {
     for _ in 0..cases {
         let base = gen_wf(&mut rng);
         let class = rng.below(100);
-        if class < 55 {
+        if class < 50 {
             // well-formed: three declaration orders (as generated = dependencies first, reversed, shuffled)
             // and the probe program that makes sizeof/alignof observable
             let mut p = base.clone();
@@ -308,7 +383,7 @@ fn main() {
             let mut pr = probes(&p);
             if rng.chance(1, 2) { shuffle(&mut rng, &mut pr); }
             emit(chk, &pr, "wf-probes");
-        } else if class < 63 {
+        } else if class < 56 {
             // duplicate names
             let mut p = base.clone();
             let k = 1 + rng.below(2);
@@ -318,7 +393,7 @@ fn main() {
             }
             shuffle(&mut rng, &mut p);
             emit(chk, &p, "dup");
-        } else if class < 71 {
+        } else if class < 62 {
             // undefined by-value names
             let mut p = base.clone();
             let a = rng.below(p.len() as u64) as usize;
@@ -327,7 +402,7 @@ fn main() {
             insert_field(&mut rng, &mut p[a].1, t);
             shuffle(&mut rng, &mut p);
             emit(chk, &p, "undef");
-        } else if class < 79 {
+        } else if class < 69 {
             // direct self reference by value (possibly through arrays)
             let mut p = base.clone();
             let a = rng.below(p.len() as u64) as usize;
@@ -336,7 +411,7 @@ fn main() {
             insert_field(&mut rng, &mut p[a].1, t);
             shuffle(&mut rng, &mut p);
             emit(chk, &p, "self");
-        } else if class < 90 {
+        } else if class < 79 {
             // mutual by-value cycle: a back edge from a lower-rank struct to a higher-rank one that
             // (transitively) contains it; built as a chain so the cycle certainly exists
             let mut p = base.clone();
@@ -353,7 +428,24 @@ fn main() {
             }
             shuffle(&mut rng, &mut p);
             emit(chk, &p, "cycle");
-        } else if class < 93 {
+        } else if class < 85 {
+            // two malformations at once (which one is reported is part of the model: self reference,
+            // then cycle, then the first failing field in processing order)
+            let mut p = base.clone();
+            if p.len() < 2 { p.push((50, vec![])); }
+            for _ in 0..2 {
+                let a = rng.below(p.len() as u64) as usize;
+                let t = match rng.below(4) {
+                    0 => { let nm = p[a].0; wrap_by_value(&mut rng, nm) }
+                    1 => { let to = p[(a + 1) % p.len()].0; let back = p[a].0; let t2 = wrap_by_value(&mut rng, back); let b = (a + 1) % p.len(); insert_field(&mut rng, &mut p[b].1, t2); wrap_by_value(&mut rng, to) }
+                    2 => { let u = 900 + rng.below(3); wrap_by_value(&mut rng, u) }
+                    _ => T::Arr(Box::new(T::P("I64")), 1 << 29),
+                };
+                insert_field(&mut rng, &mut p[a].1, t);
+            }
+            shuffle(&mut rng, &mut p);
+            emit(chk, &p, "multi");
+        } else if class < 90 {
             // legal pointer cycles on top of a well-formed program
             let mut p = base.clone();
             let names: Vec<u64> = p.iter().map(|s| s.0).collect();
